@@ -5,6 +5,16 @@ use std::cell::Cell;
 
 verus! {
 
+pub mod trusted_rc {
+    use vstd::prelude::*;
+    use std::rc::Rc;
+    /// trusted: cloning an Rc yields a handle to the same allocation (equal as a value)
+    pub broadcast axiom fn axiom_rc_clone_is_identity<T: ?Sized>(a: Rc<T>, b: Rc<T>)
+        requires #[trigger] vstd::pervasive::cloned::<Rc<T>>(a, b),
+        ensures a == b;
+}
+broadcast use trusted_rc::axiom_rc_clone_is_identity;
+
 //@include vx_prelude.rs
 //@include std_specs.rs
 
@@ -12,6 +22,61 @@ verus! {
 #[verifier::external_body]
 pub struct Node { _p: u8 }
 pub type NodeRef = Rc<Node>;
+#[verifier::external_body]
+pub struct State { _p: u8 }
+pub uninterp spec fn node_necessary(n: &Node) -> bool;
+pub uninterp spec fn node_in_heap(n: &Node) -> bool;
+pub uninterp spec fn node_valid(n: &Node) -> bool;
+/// permission predicates (call-site obligations on opaque callees): which child index may be (un)linked now
+pub uninterp spec fn may_link_child_at(i: int) -> bool;
+pub uninterp spec fn may_unlink_child_at(i: int) -> bool;
+pub uninterp spec fn may_swap_links(i: int, j: int) -> bool;
+impl Node {
+    #[verifier::external_body]
+    pub fn is_necessary(&self) -> (r: bool) ensures r == node_necessary(self) { unimplemented!() }
+    #[verifier::external_body]
+    pub fn is_in_recompute_heap(&self) -> (r: bool) ensures r == node_in_heap(self) { unimplemented!() }
+    #[verifier::external_body]
+    pub fn is_valid(&self) -> (r: bool) ensures r == node_valid(self) { unimplemented!() }
+    #[verifier::external_body]
+    pub fn state(&self) -> (r: Rc<State>) { unimplemented!() }
+    #[verifier::external_body]
+    pub fn packed(&self) -> (r: NodeRef) ensures *r == *self { unimplemented!() }
+    #[verifier::external_body]
+    pub fn as_parent_dyn_ref(&self) -> (r: &Node) ensures r == self { unimplemented!() }
+    /// node.rs state_add_parent (multi-node; not under contract): callable only for the permitted child index
+    #[verifier::external_body]
+    pub fn state_add_parent(&self, child_index: i32, parent: &Node, state: &State)
+        requires may_link_child_at(child_index as int), node_necessary(parent),
+    { unimplemented!() }
+    /// node.rs expert_remove_child (remove_parent + check_if_unnecessary on the child)
+    #[verifier::external_body]
+    pub fn expert_remove_child(&self, dyn_edge: &dyn ExpertEdge, child_index: i32, state: &State)
+        requires may_unlink_child_at(child_index as int),
+    { unimplemented!() }
+    /// node.rs expert_swap_children_except_in_kind (index arrays of three nodes)
+    #[verifier::external_body]
+    pub fn expert_swap_children_except_in_kind(&self, child1: &NodeRef, child_index1: i32, child2: &NodeRef, child_index2: i32)
+        requires may_swap_links(child_index1 as int, child_index2 as int),
+    { unimplemented!() }
+    #[verifier::external_body]
+    pub fn assert_currently_running_node_is_child(&self, name: &'static str) { unimplemented!() }
+}
+pub struct HeapHandle { pub _p: u8 }
+impl HeapHandle {
+    /// RecomputeHeap::insert by the membership part of its own debug assertion
+    #[verifier::external_body]
+    pub fn insert(&self, node: NodeRef) requires node_necessary(&*node) && !node_in_heap(&*node) { unimplemented!() }
+}
+impl State {
+    #[verifier::external_body]
+    pub fn heap(&self) -> (r: &HeapHandle) { unimplemented!() }
+}
+pub uninterp spec fn same_edge(a: &dyn ExpertEdge, b: &dyn ExpertEdge) -> bool;
+#[verifier::external_body]
+pub fn dyn_thin_ptr_eq(one: &dyn ExpertEdge, two: &dyn ExpertEdge) -> (r: bool)
+    ensures r == same_edge(one, two)
+{ unimplemented!() }
 
 #[verifier::external_type_specification]
 #[verifier::external_body]
@@ -27,6 +92,7 @@ pub assume_specification<T>[ Cell::<T>::swap ](c: &Cell<T>, d: &Cell<T>);
 //@ file: src/kind/expert.rs
 //@ name: ExpertEdge
 //@ rule R3: `ExpertEdge: Any + NotObserver` => `ExpertEdge` x1
+//@ rule R7: `fn packed(&self) -> NodeRef;` => `spec fn packed_spec(&self) -> NodeRef; fn packed(&self) -> (r: NodeRef) ensures r == self.packed_spec();` x1
 //@ rule R7: `fn index_cell(&self) -> &Cell<Option<i32>>;` => `spec fn edge_index(&self) -> Option<i32>; fn index_cell(&self) -> (r: &Cell<Option<i32>>) ensures cell_val(r) == self.edge_index();` x1
 //@end
 
@@ -203,7 +269,7 @@ impl ExpertNode {
 //@ contract:
 //@|     ensures
 //@|         self.children.len() == 0 ==> r is None, // [none-when-no-children]
-//@|         self.children.len() > 0 ==> r is Some, // [some-when-there-is-a-last-edge] (that it is a clone of the last edge rests on Rc::clone, unspecified for Rc<dyn>)
+//@|         self.children.len() > 0 ==> r == Some(self.children@[self.children.len() - 1]), // [last-edge]
 //@end
 
 //@extract fn ExpertNode::pop_child_edge
@@ -267,6 +333,64 @@ impl ExpertNode {
 //@ contract:
 //@|     ensures
 //@|         final(self).children@ == old(self).children@ && final(self).force_stale == old(self).force_stale && final(self).num_invalid_children == old(self).num_invalid_children && final(self).will_fire_all_callbacks == old(self).will_fire_all_callbacks, // [frame]
+//@end
+}
+
+
+// ---- node.rs: adding / removing a dependency of an expert node.  R5p: the expert payload of `self`
+//      (`let Some(Kind::Expert(expert)) = self.kind() else { return; }`) is passed as `expert: &mut ExpertNode`;
+//      the multi-node callees are opaque, with call-site obligations (permission predicates). ----
+spec fn edges_indexed(e: &ExpertNode) -> bool {
+    forall|i: int| 0 <= i < e.children@.len() ==> (#[trigger] e.children@[i]).edge_index() == Some(i as i32)
+}
+
+impl Node {
+//@extract fn Node::expert_add_dependency
+//@ file: src/node.rs
+//@ impl: impl ErasedNode for Node
+//@ name: expert_add_dependency
+//@ as: fn expert_add_dependency(&self, expert: &mut ExpertNode, packed_edge: PackedEdge)
+//@ tracing: yes
+//@ rule R5p re: `let Some\(Kind::Expert\(expert\)\) = self\.kind\(\) else \{\s*return;\s*\};` => `` x1
+//@ rule R8: `vx_assert(self.needs_to_be_computed());` => `` x*
+//@ rule R8: `state.recompute_heap.insert(` => `state.heap().insert(` x*
+//@ props: C14
+//@ contract:
+//@|     requires
+//@|         packed_edge.edge_index() is None,
+//@|         old(expert).children.len() < i32::MAX,
+//@|         forall|i: int| may_link_child_at(i) <==> i == old(expert).children.len(),   // the child may only be linked under its new index
+//@|     ensures
+//@|         final(expert).children@ == old(expert).children@.push(packed_edge), // [dependency-appended-others-kept]
+//@|         final(expert).latches() == l_child_list_changed(old(expert).latches()), // [adding-a-dependency-forces-one-recompute]
+//@end
+
+//@extract fn Node::expert_remove_dependency
+//@ file: src/node.rs
+//@ impl: impl ErasedNode for Node
+//@ name: expert_remove_dependency
+//@ as: fn expert_remove_dependency(&self, expert: &mut ExpertNode, dyn_edge: &dyn ExpertEdge)
+//@ tracing: yes
+//@ cells@expert: force_stale
+//@ rule R5p re: `let Some\(Kind::Expert\(expert\)\) = self\.kind\(\) else \{\s*return;\s*\};` => `` x1
+//@ rule R8: `vx_assert(self.is_stale());` => `` x*
+//@ rule R8: `state.recompute_heap.insert(` => `state.heap().insert(` x*
+//@ props: C14
+//@ contract:
+//@|     requires
+//@|         edges_indexed(old(expert)),
+//@|         old(expert).children.len() >= 1, old(expert).children.len() < i32::MAX,
+//@|         dyn_edge.edge_index() is Some,
+//@|         0 <= dyn_edge.edge_index().unwrap() < old(expert).children.len(),
+//@|         same_edge(&*old(expert).children@[dyn_edge.edge_index().unwrap() as int], dyn_edge),   // the edge being removed is the one filed under its index
+//@|         old(expert).num_invalid_children > i32::MIN,
+//@|         forall|i: int| may_unlink_child_at(i) <==> i == old(expert).children.len() - 1,           // the child is unlinked under the index it was swapped to
+//@|         forall|i: int, j: int| may_swap_links(i, j) <==> (i == dyn_edge.edge_index().unwrap() && j == old(expert).children.len() - 1),
+//@|     ensures
+//@|         final(expert).children@ == old(expert).children@.update(dyn_edge.edge_index().unwrap() as int, old(expert).children@[old(expert).children.len() - 1]).drop_last(), // [exactly-that-dependency-removed-last-one-takes-its-place]
+//@|         final(expert).force_stale, // [removing-a-dependency-forces-one-recompute]
+//@|         final(expert).will_fire_all_callbacks == old(expert).will_fire_all_callbacks, // [frame]
+//@|         final(expert).num_invalid_children == old(expert).num_invalid_children - (if node_necessary(self) && !node_valid(&*dyn_edge.packed_spec()) { 1int } else { 0int }), // [an-invalid-dependency-that-is-removed-is-no-longer-counted]
 //@end
 }
 
